@@ -336,6 +336,48 @@ def install_seams():
     _time_module.time = CLOCK.time
 
 
+class LoopThreadBlocked(RuntimeError):
+    pass
+
+
+class _NoBlockEvent:
+    """threading.Event for streamz.core.sync() while the caller IS the loop thread: waiting
+    for an event that only the loop itself can set would hang the real process; report it."""
+    def __init__(self):
+        self._flag = False
+
+    def is_set(self):
+        return self._flag
+
+    def set(self):
+        self._flag = True
+
+    def clear(self):
+        self._flag = False
+
+    def wait(self, timeout=None):
+        if not self._flag:
+            raise LoopThreadBlocked('blocking wait on the event-loop thread (sync() called where the pipeline runs on the caller\'s loop)')
+        return True
+
+
+class guard_blocking:
+    """with guard_blocking(): streamz.core.sync() cannot block the simulated loop thread"""
+    def __enter__(self):
+        import threading
+        import types
+        import streamz.core
+        self.saved = streamz.core.threading
+        streamz.core.threading = types.SimpleNamespace(Event=_NoBlockEvent, Thread=threading.Thread, local=threading.local,
+                                                       get_ident=threading.get_ident)
+        return self
+
+    def __exit__(self, *a):
+        import streamz.core
+        streamz.core.threading = self.saved
+        return False
+
+
 def new_loop(tiebreak='fifo', tiebreak_seed=0):
     import random
     lp = SimLoop()
